@@ -3,7 +3,7 @@ import cmd
 from functools import wraps
 from pyparsing.exceptions import ParseException
 from qbee.stmt import Block
-from qbee.exceptions import InternalError, SyntaxError
+from qbee.exceptions import InternalError, SyntaxError, CompileError
 from qbee import grammar
 from .module import QModule
 from .machine import QvmMachine
@@ -542,6 +542,12 @@ Type help or ? to list commands.
             value = tree.eval()
         except EvalError as e:
             print('Eval error:', e)
+            return
+        except (ArithmeticError, InternalError, CompileError) as e:
+            # division by zero, overflow, an expression the evaluator
+            # has no rule for (like a function call): report, do not
+            # let the exception end the debugger
+            print('Eval error:', str(e) or type(e).__name__)
             return
 
         print(value)
